@@ -1,6 +1,7 @@
 //! `vh`: verification harness for fontc. One subcommand per module; see /verif/DESIGN.md.
 
 mod compile;
+mod fontutil;
 mod varmodel;
 mod featvars;
 mod coords;
